@@ -1101,14 +1101,13 @@ impl CompilerContext<'_> {
     }
 
     fn validate_mapfile_signatures(&self) -> Result<(), ErrorReported> {
-        self.all_signatures().map(|siggy| {
-            siggy.params.iter().map(|param| {
-                if let Some(ty_color) = &param.ty_color {
-                    self.validate_param_ty_color(ty_color)?;
-                }
-                Ok(())
-            }).collect_with_recovery()
-        }).collect_with_recovery()
+        // (the signatures live in hash maps; visit the type colors in source order so that the order
+        //  of the diagnostics does not depend on the hash seed)
+        let mut ty_colors = self.all_signatures()
+            .flat_map(|siggy| siggy.params.iter().filter_map(|param| param.ty_color.as_ref()))
+            .collect::<Vec<_>>();
+        ty_colors.sort_by_key(|ty_color| ty_color.span);
+        ty_colors.into_iter().map(|ty_color| self.validate_param_ty_color(ty_color)).collect_with_recovery()
     }
 
     fn validate_param_ty_color(&self, ty_color: &Sp<TypeColor>) -> Result<(), ErrorReported> {
@@ -1156,9 +1155,10 @@ impl Defs {
     fn find_similar_enum_name(&self, input: &Ident) -> Option<Ident> {
         let max_distance = input.as_str().len() / 3;
 
+        // (ties are broken by name: `self.enums` is a hash map)
         self.enums.keys()
             .map(|candidate| (candidate, strsim::osa_distance(input.as_str(), candidate.as_str())))
-            .min_by_key(|&(_, distance)| distance)
+            .min_by_key(|&(candidate, distance)| (distance, candidate.as_str()))
             .filter(|&(_, distance)| distance <= max_distance)
             .map(|(candidate, _)| candidate.clone())
     }
